@@ -38,6 +38,7 @@ def plan(tier, seed):
     specs += shards("faulted", 2000 if q else 80000, 250 if q else 4000, seed)
     specs += shards("rows", 6 ** 5 if q else 6 ** 7, 6 ** 4 if q else 6 ** 5, seed, L=5 if q else 7)
     specs += shards("corpus", 1, 1, seed)
+    specs.append({"family": "stream_edges", "seed": seed, "n": 1})
     specs.append({"family": "w0", "seed": seed, "n": 1})
     return specs
 
@@ -91,6 +92,23 @@ def run_shard(spec, M):
             o = observe.parse_observed(text)
             M.hist("faulted.outcome", o.status)
             apply_parse_monitors(o, M, case, G_DECIDING)
+    elif fam == "stream_edges":
+        # byte-order marks, zero-width blanks, separators and controls at the start of the document / of lines / in words,
+        # and the same in front of generated documents: parse and stream report the same positions
+        from . import c16
+        from .doccheck import stream_agrees
+        texts = [c16.edge_document(i) for i in range(len(c16.EDGE_CHARS) * len(c16.EDGE_BASES) * 4)]
+        for k, ch in enumerate(c16.EDGE_CHARS):
+            R = doccheck.make_doc(seed, "C04e", k, size="small")
+            texts += [ch + R.text, R.text + ch, "\n" + ch + R.text]
+        for text in texts:
+            M.case(h64(text))
+            M.count("stream_edge_documents")
+            for stop in (False, True):
+                o = observe.parse_observed(text, stop=stop)
+                apply_parse_monitors(o, M, {"kind": "text", "family": fam, "text": text}, G_DECIDING)
+            o = observe.parse_observed(text)
+            stream_agrees(text, o, M, {"kind": "text", "family": fam, "text": text}, "C04")
     elif fam == "rows":
         L = spec["L"]
         for k in range(spec["start"], spec["start"] + spec["n"]):
